@@ -63,6 +63,13 @@ MUTS = {
     "M66_strike_not_split_at_gap": ("bitmap_tables.py", "            and color_glyphs[end].glyph_id == color_glyphs[end - 1].glyph_id + 1\n", "            and color_glyphs[end].glyph_id >= color_glyphs[end - 1].glyph_id + 1\n", ["C14"]),
     "M67_offsets_wrong_base": ("bitmap_tables.py", "    data_offset = CBDT_HEADER_SIZE\n\n    while color_glyphs:", "    data_offset = 0\n\n    while color_glyphs:", ["C14"]),
     "M67b_advance_uses_config_width_only": ("bitmap_tables.py", "    width_funits = max(config.width, width_funits)\n", "    width_funits = config.width or width_funits\n", ["C14"]),
+    "M47_write_omits_linegap": ("config.py", "        \"linegap\": config.linegap,\n", "", ["C10", "C20"]),
+    "M48_pop_flag_prefers_file": ("config.py", "    return flag_value if flag_value is not None else config_value", "    return config_value if config_value is not None else flag_value", ["C10", "C20"]),
+    "M49_csv_join": ("glyphmap.py", "        f = StringIO()\n        writer = csv.writer(f, lineterminator=\"\")\n        writer.writerow(row)\n        return f.getvalue()", "        return \",\".join(str(r) for r in row)", ["C10"]),
+    "M50_regex_two_or_more": ("codepoints.py", "[0-9a-fA-F]{1,}", "[0-9a-fA-F]{2,}", ["C10"]),
+    "M51_no_g_prefix": ("glyph.py", "    if not name[0].isalpha() or name.startswith(\"g_\"):\n        name = \"g_\" + name\n", "    pass\n", ["C10"]),
+    "M51b_F9_reverted": ("parts.py", "        if self.reuse_tolerance == -1:\n            return  # reuse is disabled, nothing can be a donor\n", "", ["C10"]),
+    "M51c_parts_json_drops_none_donor": ("parts.py", "            if donor != \"\":\n", "            if donor:\n", ["C10"]),
     "M68_unindexed_popleft": ("colors.py", "            result[i] = cpal_colors.pop()\n", "            result[i] = cpal_colors.popleft() if cpal_colors[0].palette_index is None else cpal_colors.pop()\n", ["C15"]),
     "M69_slots_len_only": ("colors.py", "    cpal_slots = max(len(all_colors), max(indexed_colors, default=-1) + 1)", "    cpal_slots = max(len(all_colors), len(indexed_colors))", ["C15"]),
     "M70_conflict_by_rgb_only": ("colors.py", "            if color.palette_index in indexed_colors:\n", "            if color.palette_index in indexed_colors and indexed_colors[color.palette_index][:3] != color[:3]:\n", ["C15"]),
@@ -70,9 +77,23 @@ MUTS = {
 }
 
 
+RULE_KEYS = [("SinglePos", 1), ("SinglePos", 2), ("PairPos", 1), ("PairSet", None), ("PairPos", 2), ("CursivePos", 1), ("MarkBasePos", 1), ("MarkLigPos", 1),
+             ("MarkMarkPos", 1), ("ContextPos", 1), ("ContextPos", 2), ("ContextPos", 3), ("ChainContextPos", 1), ("ChainContextPos", 2), ("ChainContextPos", 3),
+             ("ContextSubst", 1), ("ContextSubst", 2), ("ContextSubst", 3), ("ChainContextSubst", 1), ("ChainContextSubst", 2), ("ChainContextSubst", 3),
+             ("ReverseChainSingleSubst", 1), ("AttachList", None), ("LigCaretList", None), ("MarkGlyphSetsDef", None)]
+for _t, _f in RULE_KEYS:
+    MUTS["R_%s_%s" % (_t, _f)] = ("reorder_glyphs.py", "APPEND", "\n_REORDER_RULES[(ot.%s, %r)] = []\n" % (_t, _f), ["C11"])
+MUTS["M52_sort_coverage_not_parallel"] = ("reorder_glyphs.py", "        parallel_list[:] = sorted_parallel_list\n", "        pass\n", ["C11"])
+MUTS["M53_reorderlist_keyed_on_first"] = ("reorder_glyphs.py", "        lst.sort(key=lambda v: font.getGlyphID(getattr(v, self.key)))", "        lst.sort(key=lambda v: -font.getGlyphID(getattr(v, self.key)))", ["C11"])
+
+
 def apply(name, dest):
     f, old, new, _ = MUTS[name]
     shutil.copytree(os.path.join(REPO, "src"), os.path.join(dest, "src"))
+    if old == "APPEND":
+        with open(os.path.join(dest, "src", "nanoemoji", f), "a") as fh:
+            fh.write(new)
+        return
     p = os.path.join(dest, "src", "nanoemoji", f)
     s = open(p).read()
     if s.count(old) != 1:
